@@ -29,12 +29,12 @@ MANIFEST = {
             "terminated remainder is consumed whole), both seek and carry(prepend/gzip) modes. Theorem C01.readAll_bytes: for EVERY "
             "well-formed file, EVERY chunk size k>=1, both modes, the concatenation of the delivered chunks is the newline-terminated "
             "file and every chunk is non-empty and ends an entry; instantiated for the delimited, two-line FASTA and FASTQ formats; "
-            "C01.lines_chunks lifts it to entries (lines). The shipped end-of-file rule is refuted in Lean (readAll_old_loses) and was "
+            "wrapped FASTA (fasta_laws, all byte strings); entries_chunks_kLine / readAll_delimited lift it to entries (groups of n lines). The shipped end-of-file rule is refuted in Lean (readAll_old_loses) and was "
             "repaired in /repo. Correspondence: real reader vs Lean model on every small file x every chunk size x both modes (bytes), "
             "and chunked-vs-whole entry equality for ten formats x gzip x CRLF x lazy/eager.",
-    "note": "Wrapped-FASTA instance is modelled and corresponded; its law proofs are not completed (theorem for it is stated for formats "
-            "satisfying the laws; instance lemmas proved for kLine n). gzip/OS reads, lazy field parsing and CRLF handling are exercised by "
-            "the correspondence only.",
+    "note": "The buffer classes' completeness tests are modelled on the concatenation of the pending raw chunks; MultiLineFastaBuffer's "
+            "assert on the first byte is outside the model. gzip/OS reads, lazy field parsing, CRLF handling and the formats' value parsing "
+            "are exercised by the correspondence only (entry-level chunked-vs-whole equality for ten formats).",
     "technique": "Lean 4 invariant proof over a reader state machine (induction on fuel/remaining bytes) + differential correspondence",
     "design": "§6 C01",
 }
